@@ -39,7 +39,7 @@ CHECKS["C04"] = {
     "technique": T_EXH,
 }
 CHECKS["C05"] = {
-    "text": "A finite product is enumerated completely: 39 probe functions (every signature {V,L,N}^n -> {V,L,N}, n<=2) + the 5 built-ins + an unknown name, each in 14 syntactic positions (test, under !, inside &&/||, in parentheses, either comparand, argument of a V/L/N parameter, inside nested filters) with 21 argument shapes per parameter; wrong arities; 400 operand pairs x 2 comparison operators; integers at bound-1/bound/bound+1 (and the negated bounds) of 12 configured ranges (symmetric, asymmetric, one-sided, three reaching beyond 2**53; configured on a subclass and on a plain instance) in 14 index/slice slots; the standard functions once more with every query on a fresh environment; one-parameter probes and standard functions on environments whose registry was installed by rebinding the attribute or by a subclass with a dict of its own. compile() on an environment holding the probe registry must succeed exactly when the reference typing judgement says so, must raise a JSONPathError otherwise, and must never call a registered function. 186 538 queries per run.",
+    "text": "A finite product is enumerated completely: 39 probe functions (every signature {V,L,N}^n -> {V,L,N}, n<=2) + the 5 built-ins + an unknown name, each in 21 syntactic positions (test, under !, inside &&/||, in parentheses, either comparand, argument of a V/L/N parameter, inside nested filters) with 21 argument shapes per parameter; wrong arities; 400 operand pairs x 2 comparison operators; integers at bound-1/bound/bound+1 (and the negated bounds) of 12 configured ranges (symmetric, asymmetric, one-sided, three reaching beyond 2**53; configured on a subclass and on a plain instance) in 14 index/slice slots; the standard functions once more with every query on a fresh environment; one-parameter probes and standard functions on environments whose registry was installed by rebinding the attribute or by a subclass with a dict of its own. compile() on an environment holding the probe registry must succeed exactly when the reference typing judgement says so, must raise a JSONPathError otherwise, and must never call a registered function. 186 538 queries per run.",
     "ref": "DESIGN.md section 5, C05",
     "note": "Trusted: mc/ref/typing.py (RFC 2.4.3) checked against the RFC well-typedness table in the self-test; R1 re-checks grammar membership of every reported query.",
     "technique": T_EXH,
@@ -87,13 +87,13 @@ CHECKS["C12"] = {
     "technique": T_EXH,
 }
 CHECKS["C17"] = {
-    "text": "Stateless exploration of the real evaluator's complete tree of random choices: the name `random` inside jsonpath_rfc9535.segments/.selectors is rebound to an enumerating chooser (depth-first, prefix replay, one real find() per leaf; sample() outcomes enumerated up to object identity). Inputs: 12 queries x all 9 905 JSON trees with <=5 nodes (98 245 with <=6 in thorough), 4 descendant queries x all array-only container skeletons with <=7 (8) nodes, wide, duplicate-reaching and shared-container documents (also with a filter nested in a filter before a shuffled selector), and the repository's 10 nondeterminism cases; the flag switched on by subclassing, on a plain instance before / after compiling, and after other environments of the same class compiled the same text. Validity: every leaf result is in the reference model's permitted set. Exhaustiveness: the union of leaf results equals that set. 3.8 M executions in quick.",
+    "text": "Stateless exploration of the real evaluator's complete tree of random choices: the name `random` inside jsonpath_rfc9535.segments/.selectors is rebound to an enumerating chooser (depth-first, prefix replay, one real find() per leaf; sample() outcomes enumerated up to object identity). Inputs: 12 queries x all 9 905 JSON trees with <=5 nodes (98 245 with <=6 in thorough), 4 descendant queries x all array-only container skeletons with <=7 (8) nodes, wide, duplicate-reaching and shared-container documents (also with a filter nested in a filter before a shuffled selector), and the repository's 10 nondeterminism cases; the flag switched on by subclassing, on a plain instance before / after compiling, and after other environments of the same class compiled the same text. Histories: find_one / abandoned iterator / full run on one document, then find() on another with the same compiled query (6 queries x 5 histories, whole choice tree). Validity: every leaf result is in the reference model's permitted set. Exhaustiveness: the union of leaf results equals that set. 3.8 M executions in quick.",
     "ref": "DESIGN.md section 5, C17",
     "note": "Assumes all randomness flows through the module-level name `random` of the two modules (a replayed prefix meeting a different arity is a hard error).",
     "technique": "stateless exploration of the choice tree of the real code (enumerating random source), exact set comparison with reference model",
 }
 CHECKS["C18"] = {
-    "text": "Limits 1..5 x both modes x every container skeleton with <=6 (7) containers in 3 container and 2 leaf flavours; chains at nesting limit-1..limit+2 for limits 1..5, 100, 200, 450, 700 with array/object/alternating links, scalar/empty bottoms and the deep branch alone/first/middle/last; 12 cyclic structures (self-loops, 2-/3-cycles, cycles below a prefix, branching cycles for limits <=4). Deterministic mode: one execution per input; nondeterministic mode: the complete choice tree for limits <=4 (5) (capped at 3 000 / 20 000 executions per input, cap hits are reported) and all leaves within 1 (2) deviations above. nesting <= limit => the reference result; otherwise JSONPathRecursionError within a 5 s watchdog and a 200 000-node budget, never RecursionError. Histories: every sequence of <=3 applications (complete run at the limit / too deep / cyclic / shallow, find_one, iterator abandoned after 1 or 3 items) of ONE compiled query, 4 queries x 3 (6) limits x both modes: every complete run must behave like that of a fresh query; one operation grows ONE document object in place between applications.",
+    "text": "Limits 1..5 x both modes x every container skeleton with <=6 (7) containers in 3 container and 2 leaf flavours; chains at nesting limit-1..limit+2 for limits 1..5, 100, 200, 450, 700 with array/object/alternating links, scalar/empty bottoms and the deep branch alone/first/middle/last; 12 cyclic structures (self-loops, 2-/3-cycles, cycles below a prefix, branching cycles for limits <=4). Deterministic mode: one execution per input; nondeterministic mode: the complete choice tree for limits <=4 (5) (capped at 3 000 / 20 000 executions per input, cap hits are reported) and all leaves within 1 (2) deviations above. nesting <= limit => the reference result; otherwise JSONPathRecursionError within a 5 s watchdog and a 200 000-node budget, never RecursionError. Histories: every sequence of <=3 applications (complete run at the limit / too deep / cyclic / shallow, find_one, iterator abandoned after 1 or 3 items) of ONE compiled query, 4 queries x 3 (6) limits x both modes: every complete run must behave like that of a fresh query; one operation grows ONE document object in place between applications. The interpreter's recursion limit lowered to 260 with configured limits 100 / 150.",
     "ref": "DESIGN.md section 5, C18",
     "note": "Limits above 200 are not explored (the deterministic visitor recurses ~2 Python frames per level; configured limits of several hundred reach the interpreter's own limit - recorded in DESIGN.md as out of the explored range). Branching cycles only for small limits.",
     "technique": "bounded-exhaustive enumeration of shapes x limits; choice-tree exploration of the real code in nondeterministic mode (deviation-bounded for large limits)",
@@ -105,7 +105,7 @@ CHECKS["C14"] = {
     "technique": "explicit-state enumeration of operation histories on the real package (fresh import per history) against a reference model",
 }
 CHECKS["C15"] = {
-    "text": "702 structural queries (depth<=2 over the 26-segment alphabet), 529 filter queries, 60 invalid queries (every error class) and deep-document cases x all JSON trees with <=2 (quick) / <=3 (thorough) nodes, 47 kinds and deep documents x 14 call paths (module-level and environment find / finditer / find_one / compile().find / apply / finditer / find_one). All paths must give the same [(location, value identity)] list, find_one its first element or None, and the same exception class on failure. Invalid queries must be rejected by the call itself (a finditer() that fails only when iterated is reported). An environment reconfigured after a query was compiled on it (recursion limit lowered / raised, function registered again; 53 cases): the old query's entry points and the environment's methods must agree. 18 stack-exhaustion cases (queries of 300 / 3 000 / 6 000 segments, documents nested 300 / 3 000 levels under a raised max_recursion_depth) must complete, or fail with the same exception class, on every path. 2.1 M path executions in quick.",
+    "text": "702 structural queries (depth<=2 over the 26-segment alphabet), 529 filter queries, 60 invalid queries (every error class) and deep-document cases x all JSON trees with <=2 (quick) / <=3 (thorough) nodes, 47 kinds and deep documents x 17 call paths (module-level and environment find / finditer / find_one / compile().find / apply / finditer / find_one, plus find / finditer / compile().finditer through an environment created for the call and not kept). All paths must give the same [(location, value identity)] list, find_one its first element or None, and the same exception class on failure. Invalid queries must be rejected by the call itself (a finditer() that fails only when iterated is reported). An environment reconfigured after a query was compiled on it (recursion limit lowered / raised, function registered again; 53 cases): the old query's entry points and the environment's methods must agree. 18 stack-exhaustion cases (queries of 300 / 3 000 / 6 000 segments, documents nested 300 / 3 000 levels under a raised max_recursion_depth) must complete, or fail with the same exception class, on every path. 2.1 M path executions in quick.",
     "ref": "DESIGN.md section 5, C15",
     "note": "Differential oracle between entry points (agreement with RFC semantics is C01/C02). find_one on an evaluation-time recursion error may legitimately return the first node (lazy).",
     "technique": "bounded-exhaustive differential enumeration over queries x documents x entry points",
